@@ -134,9 +134,8 @@ def check_add_nodes_args(res, b, e, rsp_name, addr_name):
 def rule_tid_gate(ctx, res, d):
     """Response arm: handle_incoming_response only behind TransactionID::from_bytes(..) = Some; 8-byte ids"""
     b = d.body
-    env = lib.coroutine_param_env(b)
-    s = Sym(b)
-    s.run(start=d.arms['Response'], env=env)
+    from .c05 import paths_from_arm
+    s = paths_from_arm(d, 'Response')
     res.paths += len(s.paths)
     n = 0
     ok = True
